@@ -110,6 +110,20 @@ def execute(script):
                             emit(f'{tag}.{k}', repr(probe()))
                         except Exception as e:  # noqa: BLE001
                             emit(f'{tag}.{k}', f'raised {type(e).__name__}: {e}')
+                elif name == 'badcsv':
+                    # a csv source whose cells are neither X/blank nor 1/0 (spreadsheet exports: TRUE/FALSE, yes/no, x/-)
+                    symbols = args[1]
+                    lines = [',' + ','.join(obj.properties)]
+                    for k, o in enumerate(obj.objects):
+                        lines.append(o + ',' + ','.join(symbols[(k + j) % len(symbols)] for j in range(len(obj.properties))))
+                    text = '\r\n'.join(lines) + '\r\n'
+                    for k, probe in enumerate([lambda: type(obj).fromstring(text, 'csv'), lambda: concepts.make_context(text, 'csv'),
+                                               lambda: concepts.Definition.fromstring(text, 'csv')
+                                               if hasattr(concepts.Definition, 'fromstring') else 'n/a']):
+                        try:
+                            emit(f'{tag}.{k}', repr(probe()))
+                        except Exception as e:  # noqa: BLE001
+                            emit(f'{tag}.{k}', f'raised {type(e).__name__}: {e}')
                 elif name == 'to_definition':
                     env[args[1]] = obj.definition()
                     emit(tag, repr(env[args[1]]))
